@@ -56,6 +56,15 @@ def generate(rng, tier):
         else:
             ast, ast_c = core_r, core_c
         trace = muxgen.gen_trace(rng, muxgen.INT)
+        if rng.random() < 0.15 and handler in ('ignore', 'route'):
+            # the mapped function legitimately returns None for some items (None items pass through `id`)
+            bad, code = ['eq', enc(rng.randint(0, 5))], rng.choice([1, 2])
+            raising, clean = ['map', ['comp', ['raiseif', bad, code], ['id']]], ['map', ['id']]
+            post = rng.choice([[], [['count', 0]], [['to_list']], [['lag', 1]]])
+            pre, ctx = [], 'top'
+            h = {'ignore': [['ignore']], 'route': [['route']]}[handler]
+            ast, ast_c = [raising] + h + post, [clean] + post
+            trace = [(['n', e[1], enc(None)] if e[0] == 'n' and rng.random() < 0.35 else e) for e in trace]
         cases.append({'ast': ast, 'clean': ast_c, 'pre': pre, 'head': pre + [raising] + h, 'post': post, 'bad': bad, 'code': code, 'handler': handler, 'ctx': ctx,
                       'trace': trace, 'simple': ctx == 'top' and not pre})
     return cases
